@@ -24,13 +24,20 @@ RULE = ("corpus, then the definition-time table COMPLETELY (api x frozen base / 
         "hook-less attrs class in between, with and without redefinition; quick samples ~840 of these chains, thorough takes all) "
         "interleaved with random clean chains and, every 4th round, a chain with frozen / own-__setattr__ ingredients. Per defined "
         "chain: every one-assignment history over the fields + a non-field name, random histories of length 2-3 whose values are "
-        "fresh tokens, repeated tokens or the value currently held (thorough: also ALL sequences up to length 3 on a third of the "
-        "classes with <=3 names), each without fault, with the fault at EVERY callback position of every step, and with validators "
-        "globally disabled; initial state preset or unset. Non-trivial = a definition error, or some step makes callbacks or "
+        "fresh tokens, repeated tokens, the value currently held, None or the empty string (thorough: also ALL sequences up to "
+        "length 3 on a third of the classes with <=3 names), each without fault, with the fault at EVERY callback position of "
+        "every step -- the raised exception TYPE rotating through {UserError, KeyError, LookupError, AttributeError, TypeError, "
+        "ValueError, StopIteration, a BaseException that is not an Exception} (each type ~4k cases per quick run; thorough: all 8 "
+        "types at every position of a third of the one-step histories) -- and with validators globally disabled; initial state "
+        "preset or unset. Multiple inheritance: any non-root class may get a second direct base, a fresh plain mixin with empty "
+        "__slots__ or with a __dict__, before or after the chain parent (systematic block: hooked/unhooked base x hook-less/"
+        "hooked subclass x slots x mixin kind x order x {leaf, one level up, below a plain class} x redefinition incl. a redefined "
+        "setters.frozen field; random chains: 25% of classes). Hooks returning None are among the hook identities. Non-trivial = a definition error, or some step makes callbacks or "
         "raises; distinct = distinct case")
 ASSUMPTIONS = [
     "user hooks, converters and validators are instrumented closures returning symbolic strings; user callbacks raise only when the fault position says so",
-    "single inheritance only (the `__bases__` loop of _create_slots_class is exercised with one base); no multiple inheritance / mixins",
+    "multiple inheritance is covered for two direct bases = the attrs/plain chain parent + one plain mixin deriving from object (either order: `__base__` is the mixin or the parent); two attrs bases / diamonds are not generated",
+    "the model tracks the raised exception as a token and re-types it at the observation (`retype`): justified by C06_failure_type_independent and checked against the real propagated type (exact `type(e)`) for 8 exception types",
     "background options (cache_hash, kw_only, eq=False, weakref_slot=False, Exception root, annotations/auto_attribs, these=/make_class, collect_by_mro, list/tuple/pipe argument forms) are varied by the harness and ignored by the model: independence from them is part of what is checked",
     "field collection order/override along the chain is computed from the specification (nearest definition wins); C07 checks collection itself",
     "instances are created with __new__ and preset through object.__setattr__ (or left unset); construction itself is C01/C02",
@@ -46,7 +53,9 @@ LEVEL_TEXT = (
     "validate/convert, for ARBITRARY pipes, field lists, class chains, histories and fault positions: C06_stores_chain(_user,"
     "_assign) (operational pipe = left-to-right fold, callbacks = declarative run); C06_failure_atomic_pipe/_frozen/_step and "
     "C06_failure_atomic (fault at any position: exactly the prefix of callbacks ran, its exception propagates, instance state "
-    "unchanged; over whole histories, on any class); C06_define_default_matches_init (the stored value is the value C01_values "
+    "unchanged; over whole histories, on any class); C06_failure_type_independent (the raised type -- KeyError, LookupError, "
+    "AttributeError, TypeError, ValueError, StopIteration, non-Exception BaseException, user error -- only changes the type that "
+    "propagates); C06_mixin_only_layout (a plain second direct base changes only the instance layout); C06_define_default_matches_init (the stored value is the value C01_values "
     "gives the initializer model for the same argument; validators see the converted value); C06_nonfield_plain; C06_resolution, "
     "C06_resolution_nearest, C06_resolution_reset (field over class, the class-level argument is the defined class's own, nearest "
     "field definition, direct-base reset); C06_inherits_only_when_confused (hooks are inherited only through plain-class-then-"
@@ -54,12 +63,16 @@ LEVEL_TEXT = (
     "C06_rejected_kind, C06_frozen_never_hooked, C06_normalisation_invisible; C06_leaf; C06_model_meets_spec; K6 witness. Tied to "
     "/repo by differential correspondence on field values after every step, callback traces (kind, which Attribute, arguments), "
     "exception identity, definition errors and the value real construction stores, with single-fault enumeration at every "
-    "callback position and runs with validators disabled. Bounds of the correspondence: single-inheritance chains of <=4 (+ an "
-    "optional Exception root) classes, <=3 fields per class, histories <=3, one fault per history. Attribute storage/lookup "
+    "callback position and runs with validators disabled. Bounds of the correspondence: chains of <=4 (+ an "
+    "optional Exception root) classes, each optionally with one extra plain mixin base (either order), <=3 fields per class, histories <=3, one fault per history. Attribute storage/lookup "
     "(__dict__ vs slots), class creation, field collection and CPython's setattr dispatch are modelled and observed, not proved; "
     "a user-written __setattr__ is outside the run-time clauses (only the definition-time table and model agreement apply).")
 
 NAMES = ["x", "y", "_p"]
+FAULT_KINDS = ["user", "keyError", "lookupError", "attributeError", "typeError", "valueError", "stopIteration",
+               "baseException"]
+_KIND_CTR = [0]
+NONE_HOOK = 900           # hook identities >= 900 return None
 CONV_KINDS = [None, "plain", "c00", "c10", "c01", "c11"]
 
 
@@ -84,13 +97,14 @@ def field_ons(h):
     return ["unset", "noop", chain(U(h)), chain(U(h), U(h + 1)), chain(), chain("frozen"), chain("validate"),
             chain("convert"), chain("convert", "validate"), chain("validate", "convert"), chain(U(h), "convert"),
             chain("convert", U(h)), chain(U(h), "frozen"), chain("frozen", U(h)), chain(U(h), "validate", U(h + 1)),
-            chain("convert", "convert"), chain("validate", "validate", U(h))]
+            chain("convert", "convert"), chain("validate", "validate", U(h)), chain(U(NONE_HOOK + h % 50)),
+            chain(U(NONE_HOOK + h % 50), "convert", U(h))]
 
 
 def cls_ons(h):
     return ["unset", "noop", bare(U(h)), bare("validate"), bare("convert"), bare("frozen"), lst(U(h), U(h + 1)),
             lst("convert", "validate"), lst("validate"), lst("convert"), lst(), lst(U(h), "frozen"), lst("validate", U(h)),
-            lst("convert", U(h), "validate")]
+            lst("convert", U(h), "validate"), bare(U(NONE_HOOK + h % 50))]
 
 
 def conv_json(kind):
@@ -122,6 +136,11 @@ def mk_plain(slots=False):
             "ownSetattr": False, "autoDetect": False, "fields": []}
 
 
+def with_mixin(cs, mixin_slots, first):
+    """a second direct base: a fresh plain class (with empty __slots__ or with a __dict__), before/after the parent"""
+    return dict(cs, mixin=bool(mixin_slots), mixin_first=bool(first))
+
+
 def retag(classes):
     for ci, cs in enumerate(classes):
         for f in cs["fields"]:
@@ -129,9 +148,10 @@ def retag(classes):
     return classes
 
 
-def mk_case(classes, history, fault=None, preset=True, rv=True):
+def mk_case(classes, history, fault=None, preset=True, rv=True, kind=None):
     return {"classes": classes, "preset": preset, "runValidators": rv,
-            "history": [{"name": n, "value": v} for n, v in history], "fault": fault}
+            "history": [{"name": n, "value": v} for n, v in history], "fault": fault,
+            "faultKind": kind if fault else None}
 
 
 # ------------------------------------------------------------------------------------------------ chains
@@ -176,6 +196,27 @@ def systematic_chains():
                         sf.append(mk_field("x", ci, "unset", "c10", 2))
                     classes.append(mk_attrs(ci, sf, slots=sslots, **skw))
                     yield f"{bk}/{mid}/{sk}", retag(classes)
+    # multiple inheritance: the class under test has two direct bases, a plain mixin (empty __slots__ / __dict__) and the
+    # hooked / unhooked attrs class, in either order; also one level further down, and with a plain class in between
+    for (bk, bkw), (sk, skw) in itertools.product(base_kinds, sub_kinds):
+        for bslots, sslots in itertools.product((False, True), (False, True)):
+            for mslots, first in itertools.product((False, True), (False, True)):
+                for where in ("leaf", "middle", "below-plain"):
+                    for redefine in (False, True):
+                        bf = [mk_field("x", 0, chain(U(10), "frozen") if bk == "field-hook" and redefine else
+                                       chain(U(10)) if bk == "field-hook" else "unset", "c11", 1),
+                              mk_field("y", 0, "unset", None, 0)]
+                        classes = [mk_attrs(0, bf, slots=bslots, **bkw)]
+                        if where == "below-plain":
+                            classes.append(mk_plain(False))
+                        ci = len(classes)
+                        sf = [mk_field("z", ci, "unset", "c01", 1)]
+                        if redefine:
+                            sf.append(mk_field("x", ci, "unset", "c10", 2))
+                        classes.append(with_mixin(mk_attrs(ci, sf, slots=sslots, **skw), mslots, first))
+                        if where == "middle":
+                            classes.append(mk_attrs(ci + 1, [], slots=sslots))
+                        yield f"mi:{bk}/{where}/{sk}", retag(classes)
     # definition-time table: frozen and own-__setattr__ ingredients
     for define in (False, True):
         for frozen_base, frozen_arg, own, auto in itertools.product((False, True), (False, True), (False, True), (False, True)):
@@ -215,7 +256,8 @@ def gen_chain(rng, dirty=False):
     for ci in range(len(classes), depth + len(classes)):
         leaf = ci == depth + (1 if classes and classes[0].get("exc") else 0) - 1
         if not leaf and classes and rng.random() < 0.3:
-            classes.append(mk_plain(rng.random() < 0.5))
+            pl = mk_plain(rng.random() < 0.5)
+            classes.append(with_mixin(pl, rng.random() < 0.5, rng.random() < 0.5) if rng.random() < 0.15 else pl)
             continue
         define = rng.random() < 0.5
         hid += 10
@@ -236,6 +278,8 @@ def gen_chain(rng, dirty=False):
         for key, pr in (("cache_hash", 0.12), ("kw_only", 0.12), ("no_eq", 0.1), ("no_weakref", 0.1)):
             if rng.random() < pr:
                 cs[key] = True
+        if classes and rng.random() < 0.25:
+            cs = with_mixin(cs, rng.random() < 0.5, rng.random() < 0.6)
         if dirty:
             r = rng.random()
             if r < 0.3:
@@ -262,13 +306,22 @@ def gen_chain(rng, dirty=False):
 
 
 # ------------------------------------------------------------------------------------------------ histories
-def _with_faults(base):
-    """the case, then one case per callback position of every step"""
+def _with_faults(base, all_kinds=False, extra=0.2, rng=None):
+    """the case, then for every callback position of every step a run in which that callback raises: the exception
+    TYPE rotates through FAULT_KINDS (all of them if all_kinds), sometimes a second type at the same position"""
     obs = cb.observe(base)
     yield base
     for s, st in enumerate(obs.get("steps", [])):
         for p in range(len(st["trace"])):
-            yield dict(base, fault=[s, p])
+            if all_kinds:
+                kinds = FAULT_KINDS
+            else:
+                _KIND_CTR[0] += 1
+                kinds = [FAULT_KINDS[_KIND_CTR[0] % len(FAULT_KINDS)]]
+                if rng is not None and rng.random() < extra:
+                    kinds.append(FAULT_KINDS[(_KIND_CTR[0] + 3) % len(FAULT_KINDS)])
+            for k in kinds:
+                yield dict(base, fault=[s, p], faultKind=k)
 
 
 def cases_for_chain(classes, rng, tier, budget):
@@ -279,8 +332,11 @@ def cases_for_chain(classes, rng, tier, budget):
     names = [f["name"] for f in cb.resolved_fields(classes)] + ["nf"]
     for nm in names:
         preset = rng.random() < 0.7
-        val = "i." + nm if preset and rng.random() < 0.15 else "t1"       # sometimes the very value it holds
-        yield from _with_faults(mk_case(classes, [(nm, val)], None, preset, True))
+        r = rng.random()
+        # mostly a fresh token; sometimes the very value it holds, None, or the empty string
+        val = "i." + nm if preset and r < 0.12 else "None" if r < 0.2 else "" if r < 0.26 else "t1"
+        yield from _with_faults(mk_case(classes, [(nm, val)], None, preset, True),
+                                all_kinds=(tier == "thorough" and rng.random() < 0.3), rng=rng)
         yield mk_case(classes, [(nm, val)], None, preset, False)
     if tier == "thorough" and len(names) <= 3 and rng.random() < 0.3:
         hists = [list(h) for k in (2, 3) for h in itertools.product(names, repeat=k)]
@@ -295,13 +351,14 @@ def cases_for_chain(classes, rng, tier, budget):
                 val = rng.choice(hist)[1]
             elif r < 0.3:
                 val = "i." + nm
+            elif r < 0.38:
+                val = rng.choice(["None", ""])
             else:
                 val = f"t{i + 1}"
             hist.append((nm, val))
         preset = rng.random() < 0.6
         rv = rng.random() < 0.85
-        for c in _with_faults(mk_case(classes, hist, None, preset, rv)):
-            yield c
+        yield from _with_faults(mk_case(classes, hist, None, preset, rv), rng=rng)
 
 
 def gen_cases(tier, rng):
@@ -313,10 +370,11 @@ def gen_cases(tier, rng):
     if tier == "quick":
         by_label = {}
         for lab, ch in sys_chains:
-            by_label.setdefault(lab.split("/")[0] if lab in ("single", "deftable") else "shape", []).append(ch)
+            by_label.setdefault(lab if lab in ("single", "deftable") else "mi" if lab.startswith("mi:") else "shape",
+                                []).append(ch)
         picked = []
         for lab, chs in by_label.items():
-            k = {"single": 260, "deftable": 260, "shape": 320}[lab]
+            k = {"single": 230, "deftable": 120, "shape": 260, "mi": 300}[lab]
             picked += rng.sample(chs, min(k, len(chs)))
         rng.shuffle(picked)
         sys_iter = picked
@@ -388,6 +446,11 @@ def dist(case, obs):
         "hist_len": len(case["history"]),
         "fault": fault_kind,
         "fault_step": case["fault"][0] if case.get("fault") else -1,
+        "fault_type": (case.get("faultKind") or "user") if case.get("fault") else "none",
+        "mixin": ",".join(sorted({("none" if c.get("mixin") is None else ("slots" if c["mixin"] else "dict") +
+                                  ("-first" if c.get("mixin_first", True) else "-second")) for c in cl})),
+        "values": ",".join(sorted({"None" if a["value"] == "None" else "empty" if a["value"] == "" else
+                                   "held" if a["value"].startswith("i.") else "token" for a in case["history"]})),
         "rv": case["runValidators"], "preset": case["preset"],
         "exc": ",".join(excs) or "none",
         "defErr": "none" if not isinstance(obs, dict) or obs.get("defErr") is None else f"cls{obs['defErr'][0]}:{obs['defErr'][1]}",
@@ -412,7 +475,13 @@ def shrink(case):
         f2 = [f[0] - 1, f[1]] if f and f[0] > i else f
         yield dict(case, history=h[:i] + h[i + 1:], fault=f2)
     if case.get("fault"):
-        yield dict(case, fault=None)
+        yield dict(case, fault=None, faultKind=None)
+    for i, c in enumerate(cl):
+        if c.get("mixin") is not None:
+            c2 = copy.deepcopy(cl)
+            c2[i].pop("mixin")
+            c2[i].pop("mixin_first", None)
+            yield dict(case, classes=c2)
     # drop a class
     for i in range(len(cl)):
         c2 = copy.deepcopy(cl[:i] + cl[i + 1:])
